@@ -15,6 +15,14 @@ impl ::std::default::Default for Fr {
     }
 }
 
+#[cfg(pairing_plus_verif)]
+impl Fr {
+    /// verification hook: the raw (Montgomery form) limbs
+    pub fn verif_raw(&self) -> FrRepr {
+        self.0
+    }
+}
+
 /// # Safety
 pub const unsafe fn transmute(r: FrRepr) -> Fr {
     Fr(r)
